@@ -1,26 +1,30 @@
 (** * Model of the MATRIX FORM of the kernels of [predict/gps/kernels.rs] as the composition of the verified
     component models, in the order the Rust code calls them.
 
-    [impl_kernel_vec_for_rbf!] / [impl_kernel_vec_for_rq!] ($t1 = Matrix, Vector, &Matrix, &Vector):
+    [impl_kernel_vec_for_rbf!] / [impl_kernel_vec_for_rq!] ($t1 = Matrix, Vector, &Matrix, &Vector), after the repair
+    "matrix-form kernels take the difference of the points before squaring it" (the original expanded the square as
+    [x.powi(2).reshape(-1, 1) + y.powi(2).reshape(1, -1) - 2. * x.dot_t(y)], which cancels for nearby points far
+    from the origin):
 <<
-      let (x, y) = (x.reshape(-1, 1), y.reshape(-1, 1));
-      (-(x.powi(2).reshape(-1, 1) + y.powi(2).reshape(1, -1) - 2. * x.dot_t(y)) / (2. * self.length_scale.powi(2))).exp() * self.var
-      (1. + (x.powi(2).reshape(-1, 1) + y.powi(2).reshape(1, -1) - 2. * x.dot_t(y)) / (2. * self.alpha * self.length_scale.powi(2)))
-          .powf(-self.alpha) * self.var
+      let (x, y) = (x.reshape(-1, 1), y.reshape(1, -1));
+      assert!(x.size() > 0 && y.size() > 0, "point sets must not be empty");
+      (-(x - y).powi(2) / (2. * self.length_scale.powi(2))).exp() * self.var
+      (1. + (x - y).powi(2) / (2. * self.alpha * self.length_scale.powi(2))).powf(-self.alpha) * self.var
 >>
     Each method call is the model function of the property that owns it:
     - [Vector::reshape] = [Matrix::new(self.clone(), r, c)] and [Matrix::reshape]      : [Model/Shape.v] (C15) [new], [reshape];
-    - [Matrix::powi], [-Matrix], [Matrix::exp], [Matrix::powf]                          : [Model/Vops.v] (C04) [mat_powi], [mat_neg], [mat_map], [mat_powf];
-    - [f64 * Matrix], [Matrix / f64], [f64 + Matrix], [Matrix * f64]                    : [Model/Vops.v] (C04) [run_mat_row] on the impl row
-      the REGENERATED wiring table holds for (trait, Self, Other) ([find_row]);
-    - [Matrix + Matrix], [Matrix - Matrix]                                              : [Model/Vops.v] [mat_binop] (C04), which is [broadcast] of
+    - [Matrix::size]                                                                    : [Model/Shape.v] (C15) [size];
+    - [Matrix - Matrix] (an n x 1 column minus a 1 x m row)                             : [Model/Vops.v] [mat_binop] (C04), which is [broadcast] of
       [Model/Broadcast.v] (C12) on unequal shapes;
-    - [Matrix::dot_t(Matrix)]                                                           : [Model/MatMul.v] (C05) [mat_mat_dot DotNT].
-    The three component models each have their own record for the Rust struct [Matrix {nrows, ncols, data}]; the
+    - [Matrix::powi], [-Matrix], [Matrix::exp], [Matrix::powf]                          : [Model/Vops.v] (C04) [mat_powi], [mat_neg], [mat_map], [mat_powf];
+    - [Matrix / f64], [f64 + Matrix], [Matrix * f64]                                    : [Model/Vops.v] (C04) [run_mat_row] on the impl row
+      the REGENERATED wiring table holds for (trait, Self, Other) ([find_row]).
+    ([dot_t] of C05 is no longer called.)
+    The component models each have their own record for the Rust struct [Matrix {nrows, ncols, data}]; the
     conversions below only re-package the three fields.  [None] is a panic.  No proofs in this file. *)
 From Coq Require Import List Arith ZArith Bool.
 From Compute Require Import Base.Ops Base.ListMat.
-From Compute Require Import Model.Shape Model.Broadcast Model.Vops Model.MatMul.
+From Compute Require Import Model.Shape Model.Broadcast Model.Vops.
 Import ListNotations.
 
 Section Plumbing.
@@ -28,13 +32,9 @@ Section Plumbing.
 
   Local Notation smat := (Shape.mat T).
   Local Notation bmat := (Broadcast.mat T).
-  Local Notation mmat := (@MatMul.matrix T).
 
-  (** the same struct, seen by the three component models *)
+  (** the same struct, seen by the two component models *)
   Definition s2b (m : smat) : bmat := Broadcast.mkmat (Shape.nrows m) (Shape.ncols m) (Shape.data m).
-  Definition b2s (m : bmat) : smat := Shape.mkMat (Broadcast.nr m) (Broadcast.nc m) (Broadcast.dat m).
-  Definition b2m (m : bmat) : mmat := @MatMul.Build_matrix T (Broadcast.nr m) (Broadcast.nc m) (Broadcast.dat m).
-  Definition m2b (m : mmat) : bmat := Broadcast.mkmat (MatMul.nr m) (MatMul.nc m) (MatMul.dat m).
 
   (** the four argument types of the matrix-form impls *)
   Inductive karg :=
@@ -57,23 +57,25 @@ Section Plumbing.
     let* r := Vops.find_row tr TyMatrix TyF64 in
     Vops.run_mat_row O r (Vops.MMat m) (Vops.MSc s).
 
-  (** [x.powi(2).reshape(-1, 1) + y.powi(2).reshape(1, -1) - 2. * x.dot_t(y)] for the column matrices [x], [y]
-      (evaluation order of Rust: left operand first) *)
-  Definition sqdist_plumbing (x y : smat) : option bmat :=
-    let* x2 := Vops.mat_powi O (s2b x) 2 in
-    let* x2c := Shape.reshape (b2s x2) (-1) 1 in
-    let* y2 := Vops.mat_powi O (s2b y) 2 in
-    let* y2r := Shape.reshape (b2s y2) 1 (-1) in
-    let* s := Vops.mat_binop O VAdd (s2b x2c) (s2b y2r) in
-    let* xy := MatMul.mat_mat_dot O MatMul.DotNT (b2m (s2b x)) (b2m (s2b y)) in
-    let* xy2 := f64_op_matrix TMul (two O) (m2b xy) in
-    Vops.mat_binop O VSub s xy2.
+  (** [y.reshape(1, -1)]: the second argument becomes a row *)
+  Definition to_row (a : karg) : option smat :=
+    match a with
+    | KVector v | KRefVector v => Shape.new v 1 (-1)
+    | KMatrix m | KRefMatrix m => Shape.reshape m 1 (-1)
+    end.
+
+  (** [assert!(x.size() > 0 && y.size() > 0)], then [(x - y).powi(2)] for the column [x] and the row [y]: the broadcast
+      difference (entry (i, j) = x_i - y_j), squared element-wise by the [powi] kernel *)
+  Definition sqdiff_plumbing (x y : smat) : option bmat :=
+    let* _ := guard ((0 <? Shape.size x) && (0 <? Shape.size y)) in
+    let* d := Vops.mat_binop O VSub (s2b x) (s2b y) in
+    Vops.mat_powi O d 2.
 
   (** [RBFKernel::forward(x, y) -> Matrix] *)
   Definition rbf_forward_plumbing (var ls : T) (ax ay : karg) : option bmat :=
     let* x := to_column ax in
-    let* y := to_column ay in
-    let* d := sqdist_plumbing x y in
+    let* y := to_row ay in
+    let* d := sqdiff_plumbing x y in
     let* nd := Vops.mat_neg O d in
     let* q := matrix_op_f64 TDiv nd (mul O (two O) (powi O ls 2)) in
     let* e := Vops.mat_map O Vops.UExp q in
@@ -82,8 +84,8 @@ Section Plumbing.
   (** [RationalQuadraticKernel::forward(x, y) -> Matrix] *)
   Definition rq_forward_plumbing (var alpha ls : T) (ax ay : karg) : option bmat :=
     let* x := to_column ax in
-    let* y := to_column ay in
-    let* d := sqdist_plumbing x y in
+    let* y := to_row ay in
+    let* d := sqdiff_plumbing x y in
     let* q := matrix_op_f64 TDiv d (mul O (mul O (two O) alpha) (powi O ls 2)) in
     let* p := f64_op_matrix TAdd (one O) q in
     let* w := Vops.mat_powf O p (neg O alpha) in
